@@ -5,6 +5,7 @@
 import SqlglotModel.Proofs.Schema
 import SqlglotModel.Proofs.SchemaMemo
 import SqlglotModel.Proofs.SchemaFull
+import SqlglotModel.Proofs.SchemaHash
 import SqlglotModel.Generated.C18
 
 namespace SqlglotModel.Properties.C18
@@ -245,7 +246,84 @@ theorem type_cache_stale_witness :
 theorem generated_type_cache_key_known :
     typeCacheKey = [.tyStr] ∨ covers typeCacheKey typeCacheReads = true := by decide
 
+/-- `_find_cache` (key `(table, ensure_data_types)`): the key covers everything `find` reads except
+    `raise_on_missing` … (finite check on the extracted layout, decided completely) -/
+theorem generated_find_cache_key_ok :
+    covers findCacheKey (findCacheReads.filter (fun x => x != FField.raise)) = true := by decide
+
+/-- … and `raise_on_missing` cannot matter for a CACHED answer: only non-`None` results are served from the cache
+    (a cached `None` counts as a miss, an exception stores nothing) and a found result does not depend on it -/
+theorem find_cache_raise_irrelevant {m : List (Path × Cols)} {tr : List (List Name)} {t : List Ident} {r : Bool}
+    {v : Cols} (h : findU m tr t r = .found v) (r' : Bool) : findU m tr t r' = .found v :=
+  findU_found_raise h r'
+
+/-- which per-call overrides the computation behind each cache reads / which are part of its key, from the
+    layouts extracted on this run (`find` takes an already normalised table: it has no per-call option) -/
+def optRead : CacheId → CallOpt → Bool
+  | .names, o => nameHas nameCacheReads o
+  | .tables, o => tableHas tableCacheReads o
+  | .types, o => typeHas typeCacheReads o
+  | .finds, _ => false
+
+def optInKey : CacheId → CallOpt → Bool
+  | .names, o => nameHas nameCacheKey o
+  | .tables, o => tableHas tableCacheKey o
+  | .types, o => typeHas typeCacheKey o
+  | .finds, _ => false
+
+/-- **every per-call `dialect=` / `normalize=` override that a cached computation reads is part of that cache's
+    key** — complete decision over the 4 caches × 2 options with the regenerated layouts -/
+theorem generated_option_overrides_in_every_key :
+    ∀ (c : CacheId) (o : CallOpt), optRead c o = true → optInKey c o = true := by
+  intro c o; cases c <;> cases o <;> decide
+
 end Memo
+
+/-! ## Expression-keyed caches: the keys' cached hashes must be fresh -/
+
+section Hash
+open SqlglotModel.Generated.C18
+
+/-- **under the assumption "every key's cached hash is the hash of its current content"** a dict keyed by
+    expressions (`_find_cache`, `_normalized_table_cache`) IS the content-keyed dict of the model: same lookups,
+    same updates, and the assumption is kept.  (Who provides the assumption: C08, `cached_hash_is_recomputed`,
+    for nodes mutated through the `set/append/replace/pop` API.) -/
+theorem expression_keys_are_content_keys {β} (m : List (HKey × β)) (hm : AllFresh m) (k : HKey) (hk : k.Fresh) (v : β) :
+    hLookup m k = lookup (contentView m) k.content ∧
+    contentView (hSet m k v) = dictSet (contentView m) k.content v ∧ AllFresh (hSet m k v) :=
+  ⟨hLookup_fresh m hm k hk, hSet_fresh m hm k hk v⟩
+
+example : AllFresh ([] : List (HKey × Cols)) := by intro kv h; cases h
+
+/-- renaming the parts of the private copy through the API leaves a key whose hash will be recomputed -/
+theorem rename_via_api_fresh (f : Ident → Ident) (t : HKey) : (renameParts true f t).Fresh := rfl
+
+/-- with API renames, `find` behind an expression-keyed cache answers the uncached lookup of the (normalised or
+    verbatim) table, for every history (invariant `Coh`: keys fresh, entries = uncached answers) -/
+theorem find_via_api_transparent (look : List Ident → Option Cols) (cache : List (HKey × Cols)) (hc : Coh look cache)
+    (f : Ident → Ident) (norm : Bool) (t : HKey) (ht : t.Fresh) :
+    (findVia true look cache f norm t).2 = look (if norm then t.content.map f else t.content) ∧
+    Coh look (findVia true look cache f norm t).1 := findVia_api_spec look cache hc f norm t ht
+
+example (look : List Ident → Option Cols) : Coh look [] := by intro kv h; cases h
+
+def lookOrders : List Ident → Option Cols := fun p => if p = [⟨"orders", false⟩] then some [("id", "INT")] else none
+
+/-- **the stale-hash regression (seeded C18-5)**: `part.args["this"] = …` on the deep copy keeps the `_hash` the
+    caller's `Orders` table got when it was probed; the normalised table `orders` is stored under the hash of
+    `Orders`, and a later `find(Orders, normalize=False)` replays its columns.  With API renames it answers `None`. -/
+theorem stale_hash_witness :
+    let lower : Ident → Ident := normalize asciiFns .lowercase
+    let orders : HKey := ⟨[⟨"Orders", false⟩], none⟩
+    (findVia false lookOrders (findVia false lookOrders [] lower true orders).1 lower false orders).2
+      = some [("id", "INT")] ∧
+    (findVia true lookOrders (findVia true lookOrders [] lower true orders).1 lower false orders).2 = none := by
+  decide +kernel
+
+/-- the source renames table parts through the hash-invalidating API (ast fact re-extracted on every run) -/
+theorem generated_rename_invalidates_hash : tableRenameKeepsHash = false := by decide
+
+end Hash
 
 /-! ## The nested dict, the nested trie and the lazily cached depth refine the flat view -/
 
@@ -270,6 +348,48 @@ example : Shape 2 (.node [("d", .node [("t", .leaf [("a", "INT")])])]) :=
 theorem nested_set_keeps_uniform (d : Nat) (m : Tree) (path : Path) (c : Cols)
     (h : Uniform (d + 1) m ∨ m = .node []) (hl : path.length = d + 1) :
     Uniform (d + 1) (nestedSet m path (.leaf c)) := uniform_nestedSet d m path c h hl
+
+/-- get-after-set on the nested dict: the path just set holds the new column dict … -/
+theorem nested_get_set_same (d : Nat) (m : Tree) (path : Path) (c : Cols) (hs : Shape (d + 1) m)
+    (hl : path.length = d + 1) : nestedGet (nestedSet m path (.leaf c)) path = .found (.leaf c) := by
+  obtain ⟨s1, s2⟩ := flatView_nestedSet d m path c hs hl
+  rw [nestedGet_flatView (d + 1) _ path s1 hl, s2 path]
+  simp
+
+/-- … and every other table path is untouched -/
+theorem nested_get_set_other (d : Nat) (m : Tree) (path q : Path) (c : Cols) (hs : Shape (d + 1) m)
+    (hl : path.length = d + 1) (hq : q.length = d + 1) (hne : path ≠ q) :
+    nestedGet (nestedSet m path (.leaf c)) q = nestedGet m q := by
+  obtain ⟨s1, s2⟩ := flatView_nestedSet d m path c hs hl
+  rw [nestedGet_flatView (d + 1) _ q s1 hq, nestedGet_flatView (d + 1) m q hs hq, s2 q]
+  simp [hne]
+
+/-- `nested_set` with a full-depth path never changes `dict_depth` (so a cached `_depth` stays right) -/
+theorem dict_depth_nested_set (d : Nat) (m : Tree) (path : Path) (c : Cols) (h : Uniform (d + 1) m)
+    (hl : path.length = d + 1) : dictDepth (nestedSet m path (.leaf c)) = dictDepth m := by
+  rw [dictDepth_uniform _ _ (uniform_nestedSet d m path c (Or.inl h) hl), dictDepth_uniform _ _ h]
+
+/-- the paths `flatten_schema` lists after a `nested_set`: the old ones and the new one -/
+theorem flatten_after_set_mem (d : Nat) (m : Tree) (path : Path) (c : Cols) (hs : Shape (d + 1) m)
+    (hl : path.length = d + 1) (q : Path) :
+    q ∈ flatten (d + 1) [] (nestedSet m path (.leaf c)) ↔ (q = path ∨ q ∈ flatten (d + 1) [] m) := by
+  obtain ⟨s1, s2⟩ := flatView_nestedSet d m path c hs hl
+  rw [flatten_flatView d _ [] s1, flatten_flatView d m [] hs]
+  simp only [List.nil_append]
+  have key : ∀ (l : List (Path × Cols)), q ∈ l.map (fun pc => pc.1) ↔ lookup l q ≠ none := by
+    intro l
+    constructor
+    · intro h e; exact (lookup_none_iff.mp e) h
+    · intro h; exact Classical.byContradiction fun hn => h (lookup_none_iff.mpr hn)
+  rw [key, key, s2 q]
+  by_cases e : path = q
+  · simp [e]
+  · simp only [e, if_false]
+    constructor
+    · exact Or.inr
+    · rintro (h | h)
+      · exact absurd h.symm e
+      · exact h
 
 /-- `flatten_schema(mapping, depth)` lists exactly the paths of the flat view -/
 theorem flatten_schema_refines (d : Nat) (m : Tree) (keys : List Name) (hs : Shape (d + 1) m) :
@@ -472,6 +592,45 @@ theorem nested_set_col_refines (d : Nat) (m : Tree) (path : Path) (col : Name) (
       if path = q then
         some (dictSet (match lookup (flatView (d + 1) m) path with | some c => c | none => []) col ty)
       else lookup (flatView (d + 1) m) q := nestedSetCol_refines d m path col ty hs hl
+
+/-- **the real constructor refines `ctorFlat`**: `MappingSchema(raw, normalize=True)` on a uniform raw mapping whose
+    tables all have a column succeeds, its state is admissible (cached `_depth` correct, trie uniform, name cache
+    sound) and stands for the fresh flat state over `ctorFlat (flatView raw)` -/
+theorem constructor_refines_flat {L : Layouts} {E : Env} (hk : NameKeyOK L E) (n : Nat) (raw : Tree)
+    (hu : Uniform (n + 1) raw) (hc : ∀ kc ∈ flatView (n + 1) raw, kc.2 ≠ []) :
+    ∃ F, fInit E L raw true = .ok F ∧ CShape F.core (n + 1) ∧ NamesInv L E F.names ∧ F.tables = [] ∧
+      F.core.types = [] ∧
+      Equiv (absC F.core (n + 1)) (fresh ⟨ctorFlat E (flatView (n + 1) raw), [], []⟩) :=
+  fInit_normalize_spec hk n raw hu hc
+
+open SqlglotModel.Generated.C18 in
+/-- … so C18 holds for every history that STARTS with the raw constructor, on the full model -/
+theorem full_refines_fresh_from_raw_constructor (E : Env) (hf : E.f.Ok) (hty : TypeKeyOK genL E) (n : Nat) (raw : Tree)
+    (hu : Uniform (n + 1) raw) (hc : ∀ kc ∈ flatView (n + 1) raw, kc.2 ≠ [])
+    (ops : List FOp) (hadm : ∀ op ∈ ops, FAdm op) (q : FOp) (hq : FAdm q) :
+    ∃ F, fInit E genL raw true = .ok F ∧
+      (fStep E genL (fRun E genL F ops) q).2 =
+        (step E .all (fresh (run E .all (fresh ⟨ctorFlat E (flatView (n + 1) raw), [], []⟩) (ops.map FOp.toOp))) q.toOp).2 := by
+  have hk := generated_keys_ok E hf hty
+  obtain ⟨F, e, h1, h2, h3, h4, h5⟩ := fInit_normalize_spec hk.name n raw hu hc
+  refine ⟨F, e, ?_⟩
+  have hT : TInv genL E F.core := by unfold TInv; rw [h4]; exact memoInv_nil _ _
+  have hTb : TablesInv genL E F.tables := by unfold TablesInv; rw [h3]; exact memoInv_nil _ _
+  exact full_schema_refines_fresh E hf hty F (n + 1) _ ⟨h1, hT, h2, hTb⟩ (fresh_inv E _) h5 ops hadm q hq
+
+open SqlglotModel.Generated.C18 in
+/-- **constructor = incremental, end to end**: every query on the schema the REAL constructor path builds from a raw
+    nested mapping is answered like the (flat) empty schema after `add_table` of each raw table in flatten order -/
+theorem raw_constructor_answers_eq_incremental (E : Env) (hf : E.f.Ok) (hty : TypeKeyOK genL E) (n : Nat) (raw : Tree)
+    (hu : Uniform (n + 1) raw) (hok : CtorOK E n (flatView (n + 1) raw)) (q : FOp) (hq : FAdm q) :
+    ∃ F, fInit E genL raw true = .ok F ∧
+      (fStep E genL F q).2 =
+        (step E .all (run E .all empty ((flatView (n + 1) raw).map (addOpOf E))) q.toOp).2 := by
+  obtain ⟨F, e, h⟩ := full_refines_fresh_from_raw_constructor E hf hty n raw hu hok.cols [] (by intro o h; cases h) q hq
+  refine ⟨F, e, ?_⟩
+  simp only [fRun, List.foldl_nil, List.map_nil, run] at h
+  rw [h]
+  exact constructor_answers_eq_incremental E n _ hok q.toOp
 
 end Ctor
 
